@@ -19,7 +19,7 @@ base = set()
 F0 = Facts(fdir)
 for p, m in mods.items():
     c = R.Ctx(p, F0, 'thorough', 0)
-    m.run(c)
+    R.run_module(m, c)
     base |= {v['key'] for v in c.violations}
 matrix = {}
 mp = os.path.join(R.VERIF, 'seeded', 'matrix.json')
@@ -48,7 +48,7 @@ for d in sorted(glob.glob(os.path.join(R.VERIF, 'seeded', 'C*-*'))):
         for pid, m in mods.items():
             c = R.Ctx(pid, F, 'thorough', 0)
             try:
-                m.run(c)
+                R.run_module(m, c)
             except CheckBroken as e:
                 det.setdefault(pid, []).append('CHECK-BROKEN ' + str(e)[:100])
                 continue
